@@ -683,3 +683,43 @@ pub fn job_lower(job: &Sexp) -> String {
         }
     }
 }
+
+/// `tcheck` jobs (tie of coq/Check/Infer.v, the model of check.rs): the REAL checker's verdict on a program text and,
+/// when it accepts, the typed AST it returns (exported as for `lower`, identifiers interned in rank order) together with
+/// the intern table. `(tcheck id (src "text"))` -> `(accept (names "n0" ..) (ast ..))` | `(reject KIND)` | `(crash ..)` |
+/// `(accept) (export-failed ..)`
+pub fn job_tcheck(job: &Sexp) -> String {
+    let src = job.field("src").args()[0].text();
+    let r = catch_unwind(AssertUnwindSafe(|| garble_lang::check(&src)));
+    let prg = match r {
+        Err(_) => return format!("(crash {})", quote(crate::last_panic().as_bytes())),
+        Ok(Err(e)) => {
+            let e = format!("{e:?}");
+            let kind = if e.contains("TypeError") { "type" } else if e.contains("ParseError") { "parse" }
+                       else if e.contains("ScanError") { "scan" } else { "other" };
+            return format!("(reject {kind})");
+        }
+        Ok(Ok(p)) => p,
+    };
+    let cs = HashMap::new();
+    let out = catch_unwind(AssertUnwindSafe(|| {
+        let mut ex = Exporter { prg: &prg, const_sizes: &cs, names: Interner::new() };
+        let _ = ex.program("main");
+        let ranked = ex.names.ranked();
+        let table: Vec<String> = {
+            let mut names: Vec<(&String, &usize)> = ranked.map.iter().collect();
+            names.sort_by_key(|(_, i)| **i);
+            names.iter().map(|(n, _)| quote(n.as_bytes())).collect()
+        };
+        let table = table.join(" ");
+        let mut ex = Exporter { prg: &prg, const_sizes: &cs, names: ranked };
+        (table, ex.program("main"))
+    }));
+    match out {
+        Ok((t, a)) => format!("(accept (names {t}) (ast {a}))"),
+        Err(e) => {
+            let msg = e.downcast_ref::<String>().cloned().unwrap_or_default();
+            format!("(accept) (export-failed {})", quote(msg.as_bytes()))
+        }
+    }
+}
